@@ -59,6 +59,13 @@ def get_def(target):
     elif kind == 'abstract':
         tree, text = parse_file('utilities/abstract_excel_in_python_class.py')
         node = _find(tree.body, ['AbstractExcelInPython'] + rest.split('.'))
+    elif kind == 'verif':
+        # engine self-test functions kept under /verif (never a property's evidence)
+        relpath, _, qual = rest.partition(':')
+        import os
+        text = open(os.path.join(os.path.dirname(os.path.dirname(os.path.abspath(__file__))), relpath), encoding='utf-8').read()
+        tree = ast.parse(text)
+        node = _find(tree.body, qual.split('.'))
     else:
         raise SourceError(f'bad target {target}')
     if node is None:
